@@ -31,6 +31,7 @@ type contact struct {
 	addr *net.UDPAddr
 	id   [20]byte
 	mode int // 0 answers, 1 never answers, 2 answers late
+	ro   bool // flags its responses read-only (BEP 43): must not be admitted through them
 	peer *core.Peer
 }
 
@@ -460,6 +461,7 @@ func tbl(r *Run, focus string) {
 			Bep42Secure(&c.id, c.addr.IP)
 		}
 		c.mode = ch.Pick([]int{6, 2, 1}, "contact.mode")
+		c.ro = ch.Chance(1, 8, "contact.ro")
 		cc := c
 		c.peer = r.AddPeer(&core.Peer{Addr: c.addr, ID: c.id, Kind: "contact", Handle: func(p *core.Peer, from *core.SimConn, q benc.Dict, raw []byte) [][]byte {
 			if y, _ := q.Str("y"); y != "q" {
@@ -478,7 +480,13 @@ func tbl(r *Run, focus string) {
 			if m, _ := q.Str("q"); m != "ping" {
 				rr = rr.Set("nodes", string(nodes))
 			}
-			return [][]byte{Resp(t, rr)}
+			rep := Resp(t, rr)
+			if cc.ro {
+				d, _ := benc.DecodeDict(rep)
+				rep = benc.Encode(d.Set("ro", int64(1)))
+				r.Probe("read-only-response")
+			}
+			return [][]byte{rep}
 		}})
 		tw.contacts = append(tw.contacts, c)
 		return c
